@@ -683,15 +683,16 @@ void TasmanianSparseGrid::mapConformalCanonicalToTransformed(int num_dimensions,
             c[j].resize(conformal_asin_power[j] + 1);
             p[j].resize(conformal_asin_power[j] + 1);
         }
-        double lgamma_half = std::lgamma(0.5);
         std::vector<double> cm(num_dimensions, 0.0);
         for(int j=0; j<num_dimensions; j++){
             double factorial = 0.0;
+            double gamma_ratio = 0.0; // log(Gamma(k + 1/2) / Gamma(1/2)), accumulated since std::lgamma() writes the global signgam and this method is const
             for(int k=0; k<=conformal_asin_power[j]; k++){
                 p[j][k] = (double)(2*k+1);
-                c[j][k] = std::lgamma(0.5 + ((double) k)) - lgamma_half - std::log(p[j][k]) - factorial;
+                c[j][k] = gamma_ratio - std::log(p[j][k]) - factorial;
                 cm[j] += std::exp(c[j][k]);
                 factorial += std::log((double)(k+1));
+                gamma_ratio += std::log(0.5 + ((double) k));
             }
         }
         Utils::Wrapper2D<double> xwrap(num_dimensions, x);
@@ -721,17 +722,18 @@ template<typename FloatType> void TasmanianSparseGrid::mapConformalTransformedTo
             dc[j].resize(conformal_asin_power[j] + 1);
             dp[j].resize(conformal_asin_power[j] + 1);
         }
-        double lgamma_half = std::lgamma(0.5);
         std::vector<double> cm(num_dimensions, 0.0);
         for(int j=0; j<num_dimensions; j++){
             double factorial = 0.0;
+            double gamma_ratio = 0.0; // log(Gamma(k + 1/2) / Gamma(1/2)), see mapConformalCanonicalToTransformed()
             for(int k=0; k<=conformal_asin_power[j]; k++){
                 p[j][k] = (double)(2*k+1);
-                c[j][k] = std::lgamma(0.5 + ((double) k)) - lgamma_half - std::log(p[j][k]) - factorial;
+                c[j][k] = gamma_ratio - std::log(p[j][k]) - factorial;
                 cm[j] += std::exp(c[j][k]);
                 dp[j][k] = (double)(2*k);
-                dc[j][k] = std::lgamma(0.5 + ((double) k)) - lgamma_half - factorial;
+                dc[j][k] = gamma_ratio - factorial;
                 factorial += std::log((double)(k+1));
+                gamma_ratio += std::log(0.5 + ((double) k));
             }
         }
         for(int i=0; i<num_points; i++){
@@ -782,15 +784,16 @@ void TasmanianSparseGrid::mapConformalWeights(int num_dimensions, int num_points
             c[j].resize(conformal_asin_power[j] + 1);
             p[j].resize(conformal_asin_power[j] + 1);
         }
-        double lgamma_half = std::lgamma(0.5);
         std::vector<double> cm(num_dimensions);
         for(int j=0; j<num_dimensions; j++){
             double factorial = 0.0;
+            double gamma_ratio = 0.0; // log(Gamma(k + 1/2) / Gamma(1/2)), see mapConformalCanonicalToTransformed()
             cm[j] = 0.0;
             for(int k=0; k<=conformal_asin_power[j]; k++){
                 p[j][k] = (double)(2*k);
-                c[j][k] = std::lgamma(0.5 + ((double) k)) - lgamma_half - factorial;
+                c[j][k] = gamma_ratio - factorial;
                 factorial += std::log((double)(k+1));
+                gamma_ratio += std::log(0.5 + ((double) k));
                 cm[j] += std::exp(c[j][k] - std::log((double)(2*k+1)));
             }
         }
